@@ -41,6 +41,7 @@ ADVERSARIAL = [
     "%s. 1 : format", "%s. 2 : format", "%d%%. 3", "{0}. 4 : braces", "{0}. 5 : braces",
     # parsable lines whose unit is an (empty) bracket pair or nested brackets: bracket stripping runs after the regex step
     "X.[] 1 : empty brackets", "X.() : empty parentheses", ".[]", ".() :", "Y.[[]] : nested", "Z.(()) 5", "B.[(m)] 2 : twice wrapped",
+    "x" * 5000, "LONG." + "y" * 6000 + " : z", "L2. 1 : " + "d" * 9000, ("w " * 3000).strip(),
     "B.[ ] 3", "B.( ) : blank inside", "Q.[ : half open", "Q.) 4 : half closed", "q7.%% @ : &&junk", "U.[m 5 : x", "U.m] 5 : x",
 ]
 
@@ -195,7 +196,7 @@ def oracle(case):
     if n_excl:
         out.cls("some-junk-excluded")
     out.nontrivial = any(j.strip() and not j.strip().startswith("#") for j in junk_lines)
-    out.sample = dict(junk=junk_lines, mnemonic_case=case["mnemonic_case"])
+    out.sample = dict(junk=[j if len(j) < 200 else j[:60] + "...[%d chars]" % len(j) for j in junk_lines], mnemonic_case=case["mnemonic_case"])
     tag = sorted(kinds)[0] if len(kinds) == 1 else ("several" if kinds else "none")
     run_oracle(out, lastext.render(spec), lastext.render(junk_spec), junk_lines, must_warn,
                dict(mnemonic_case=case["mnemonic_case"]), tag)
